@@ -39,7 +39,8 @@ Qed.
 
 Lemma inst_validate_plain : forall f x q, lvalidate f x <> Err (EValidation q).
 Proof.
-  intros f x q. unfold lvalidate. destruct (lvalidate_kind f x) eqn:E; try discriminate.
+  intros f x q. unfold lvalidate. destruct (pyval_eqb x cfg_object); [destruct (l_kind f); discriminate|].
+  unfold lvalidate_data. destruct (lvalidate_kind f x) eqn:E; try discriminate.
   - destruct x; try discriminate; destruct (l_reject f); try discriminate; destruct (pyval_eqb a p); discriminate.
   - intro H. inversion H; subst. eapply inst_validate_kind_plain; eauto.
 Qed.
@@ -53,6 +54,20 @@ Theorem inst_rejection_shape : forall vt x w pre c fs dyn k rl w' c' e,
   e = EAttribute \/ verr_below (path_join pre k) e.
 Proof. intros vt. apply rejection_shape; [apply inst_validate_plain | apply inst_to_python_plain]. Qed.
 
+(* ... and for configuration objects handed over as they are *)
+Theorem inst_obj_rejection_shape : forall vt o w pre c dyn vs fs w' c' e,
+  apply_cop leaf lvalidate lto_python ldefault l_callable lflag (vrun vt) w pre c dyn vs fs o = (w', c', OErr e) ->
+  match o with
+  | CSetObj k _ => e = EAttribute \/ e = EValidation (path_join pre k)
+  | CAppendObj k _ | CInsertObj k _ _ =>
+      exists l, dget k (c_data c) = Some (VList l) /\ verr_below (path_index (path_join pre k) (N.of_nat (length l))) e
+  | CSetIdxObj k i _ =>
+      exists l, dget k (c_data c) = Some (VList l) /\
+                ((e = EIndex /\ (length l <= i)%nat) \/ verr_below (path_index (path_join pre k) (N.of_nat (length l))) e)
+  | _ => True
+  end.
+Proof. intros vt. apply obj_rejection_shape. apply inst_validate_plain. Qed.
+
 (* ---- a small schema used by the examples: n = IntField(min=1,max=100,default=3); s = StringField(min_len=2, required);
         sub.a = IntField(max=20, default=5) ---- *)
 Definition mk (k : lkind) (req : bool) (d : pyval) : leaf :=
@@ -61,8 +76,8 @@ Definition ex_fs : list (str * node leaf) :=
   [(sa "n", NLeaf (mk (LInt (Some 1%Z) (Some 100%Z)) false (PInt 3)));
    (sa "s", NLeaf (mk (LStr (Some 2%nat) None false false) true (PStr (sa "abc"))));
    (sa "sub", NSub false [] [(sa "a", NLeaf (mk (LInt None (Some 20%Z)) false (PInt 5)))])].
-Definition ex_root : cfg := snd (build_cfg leaf ldefault l_callable w0 ex_fs).
-Definition ex_w : world := fst (build_cfg leaf ldefault l_callable w0 ex_fs).
+Definition ex_root : cfg := snd (build_cfg leaf lvalidate lto_python ldefault l_callable lflag (vrun []) w0 ex_fs).
+Definition ex_w : world := fst (build_cfg leaf lvalidate lto_python ldefault l_callable lflag (vrun []) w0 ex_fs).
 Definition ex_do (c : cfg) (ps : list pstep) (o : cop) :=
   at_path leaf lvalidate lto_python ldefault l_callable lflag (vrun []) ps ex_w [] c false [] ex_fs o.
 
@@ -98,11 +113,11 @@ Definition ex_fs_flag : list (str * node leaf) :=
   [(sa "sub", NSub false [] [(sa "enabled", NLeaf (mk LFlag false (PBool false)));
                              (sa "need", NLeaf (mk (LInt None None) true PNone))])].
 Example F36_exempt_when_validating :
-  let c := snd (build_cfg leaf ldefault l_callable w0 ex_fs_flag) in
+  let c := snd (build_cfg leaf lvalidate lto_python ldefault l_callable lflag (vrun []) w0 ex_fs_flag) in
   validate_errs leaf lvalidate lflag (vrun []) (NSub false [] ex_fs_flag) [] (VCfg c) = [].
 Proof. vm_compute. reflexivity. Qed.
 Example F36_refuted :
-  let '(w, c) := build_cfg leaf ldefault l_callable w0 ex_fs_flag in
+  let '(w, c) := build_cfg leaf lvalidate lto_python ldefault l_callable lflag (vrun []) w0 ex_fs_flag in
   let t := PDict 0 [(PStr (sa "sub"), PDict 0 [(PStr (sa "enabled"), PBool false); (PStr (sa "need"), PNone)])] in
   snd (load_tree leaf lvalidate lto_python ldefault l_callable lflag (vrun []) t true w [] c false [] ex_fs_flag)
   = OErr (EValidation (sa "sub.need")).
@@ -162,7 +177,8 @@ Qed.
 
 Theorem inst_validate_sound : forall f x v, lvalidate f x = Ok v -> inst_meets f v.
 Proof.
-  intros f x v. unfold lvalidate. destruct (lvalidate_kind f x) eqn:E; try discriminate.
+  intros f x v. unfold lvalidate. destruct (pyval_eqb x cfg_object); [destruct (l_kind f); discriminate|].
+  unfold lvalidate_data. destruct (lvalidate_kind f x) eqn:E; try discriminate.
   intro H. apply (inst_validate_kind_sound f x).
   destruct x; try (inversion H; subst; exact E); destruct (l_reject f); try (inversion H; subst; exact E);
     destruct (pyval_eqb a p); try discriminate; inversion H; subst; exact E.
@@ -170,11 +186,150 @@ Qed.
 
 (* every state reachable from a fresh configuration by any history is well-formed, given valid declared defaults *)
 Theorem inst_reachable_wf : forall vt ops w dyn vs fs,
-  (forall f n, inst_meets f (ldefault f n)) -> ok_fields leaf fs ->
+  (forall f n, inst_meets f (ldefault f n)) -> ok_fields leaf lvalidate lto_python ldefault l_callable lflag (vrun vt) fs -> objs_ok leaf inst_meets fs ops ->
   wf_cfg leaf inst_meets fs
     (run leaf lvalidate lto_python ldefault l_callable lflag (vrun vt) ops
-         (fst (build_cfg leaf ldefault l_callable w fs)) (snd (build_cfg leaf ldefault l_callable w fs)) dyn vs fs).
-Proof. intros. apply reachable_wf; [apply inst_validate_sound | assumption | assumption]. Qed.
+         (fst (build_cfg leaf lvalidate lto_python ldefault l_callable lflag (vrun vt) w fs)) (snd (build_cfg leaf lvalidate lto_python ldefault l_callable lflag (vrun vt) w fs)) dyn vs fs).
+Proof. intros. apply reachable_wf; [apply inst_validate_sound | assumption | assumption | assumption]. Qed.
+
+(* ... including histories that build configuration objects on the side (from the schema of the slot they go to) and
+   hand them over by assignment, append, item assignment or insert: no condition on the objects is left *)
+Theorem inst_reachable_x_wf : forall vt ops w dyn vs fs,
+  (forall f n, inst_meets f (ldefault f n)) -> ok_fields leaf lvalidate lto_python ldefault l_callable lflag (vrun vt) fs ->
+  xobjs_ok leaf inst_meets fs ops ->
+  wf_cfg leaf inst_meets fs
+    (run_x leaf lvalidate lto_python ldefault l_callable lflag (vrun vt) ops
+         (fst (build_cfg leaf lvalidate lto_python ldefault l_callable lflag (vrun vt) w fs)) (snd (build_cfg leaf lvalidate lto_python ldefault l_callable lflag (vrun vt) w fs)) dyn vs fs).
+Proof. intros. apply reachable_x_wf; [apply inst_validate_sound | assumption | assumption | assumption]. Qed.
+
+(* ... and histories in which a refused object is kept, worked on and offered again *)
+Theorem inst_reachable_xs_wf : forall vt ops w dyn vs fs,
+  (forall f n, inst_meets f (ldefault f n)) -> ok_fields leaf lvalidate lto_python ldefault l_callable lflag (vrun vt) fs ->
+  xs_ok leaf lvalidate lto_python ldefault l_callable lflag (vrun vt) inst_meets fs ops None ->
+  wf_cfg leaf inst_meets fs
+    (run_xs leaf lvalidate lto_python ldefault l_callable lflag (vrun vt) ops
+         (fst (build_cfg leaf lvalidate lto_python ldefault l_callable lflag (vrun vt) w fs)) None (snd (build_cfg leaf lvalidate lto_python ldefault l_callable lflag (vrun vt) w fs)) dyn vs fs).
+Proof. intros. apply reachable_xs_wf; [apply inst_validate_sound | assumption | assumption | assumption]. Qed.
+
 
 Example ex_defaults_valid : forall n, inst_meets (mk (LInt (Some 1%Z) (Some 100%Z)) false (PInt 3)) (ldefault (mk (LInt (Some 1%Z) (Some 100%Z)) false (PInt 3)) n).
 Proof. intro n. right. exists 3%Z. split; reflexivity. Qed.
+
+(* ---- configuration objects ---- *)
+(* a schema with a sub-configuration holding a required field without default, and a list of such configurations *)
+Definition ex_need : list (str * node leaf) := [(sa "need", NLeaf (mk (LInt None None) true PNone)); (sa "t", NLeaf (mk (LStr None None false false) false (PStr (sa "ok"))))].
+Definition ex_fs_obj : list (str * node leaf) :=
+  [(sa "n", NLeaf (mk (LInt (Some 1%Z) (Some 100%Z)) false (PInt 3)));
+   (sa "sub", NSub false [] ex_need);
+   (sa "items", NCfgList false [] ex_need None)].
+Definition ex_obj_root : cfg := snd (build_cfg leaf lvalidate lto_python ldefault l_callable lflag (vrun []) w0 ex_fs_obj).
+Definition ex_obj_w : world := fst (build_cfg leaf lvalidate lto_python ldefault l_callable lflag (vrun []) w0 ex_fs_obj).
+Definition ex_obj_do (w : world) (c : cfg) (ps : list pstep) (x : xop leaf) :=
+  at_path_x leaf lvalidate lto_python ldefault l_callable lflag (vrun []) ps w [] c false [] ex_fs_obj x.
+(* an object of the slot's schema whose required field was never set / was set *)
+Definition ex_unset : xop leaf := XObj RSet (sa "sub") false [] ex_need [].
+Definition ex_set (r : objroute) (k : str) : xop leaf := XObj r k false [] ex_need [([], CSet (sa "need") (PInt 4))].
+
+(* C11 / C06: what the code does with `cfg.sub = other` when `other` fails validation -- the object is ACCEPTED
+   unvalidated (the stored object is `other` itself, identity included; the key becomes user-defined), and the next
+   whole-configuration validation of the parent reports the unset required field: the check happens at the next
+   load / validate, which is when C11 demands it *)
+Example set_obj_unvalidated_refuted :
+  let '(w1, c1, o1) := ex_obj_do ex_obj_w ex_obj_root [] ex_unset in
+  let '(_, c2, o2) := ex_obj_do w1 c1 [] (XOp (CValidate false)) in
+  o1 = OOk /\ defined c1 (sa "sub") = true
+  /\ dget (sa "sub") (c_data c1) = Some (VCfg (snd (detached leaf lvalidate lto_python ldefault l_callable lflag (vrun []) ex_obj_w false [] ex_need [])))
+  /\ o2 = OErr (EValidation (sa "sub.need")) /\ c2 = c1.
+Proof. vm_compute. repeat split; reflexivity. Qed.
+
+(* ... whereas the same object offered to a list of configurations is validated on the spot and refused, the error
+   naming the position it would have had; a valid one is taken, and is then the very object that was handed over *)
+Example append_obj_rejected :
+  let '(w1, c1, _) := ex_obj_do ex_obj_w ex_obj_root [] (XOp (CSet (sa "items") (PList 0 []))) in
+  let '(w2, c2, o2) := ex_obj_do w1 c1 [] (XObj RAppend (sa "items") false [] ex_need []) in
+  let '(w3, c3, o3) := ex_obj_do w2 c2 [] (ex_set RAppend (sa "items")) in
+  let '(w4, c4, o4) := ex_obj_do w3 c3 [] (XObj (RInsert 0) (sa "items") false [] ex_need []) in
+  o2 = OErr (EValidation (sa "items[0].need")) /\ c2 = c1
+  /\ o3 = OOk /\ dget (sa "items") (c_data c3) = Some (VList [snd (detached leaf lvalidate lto_python ldefault l_callable lflag (vrun []) w2 false [] ex_need [([], CSet (sa "need") (PInt 4))])])
+  /\ o4 = OErr (EValidation (sa "items[1].need")) /\ c4 = c3.
+Proof. vm_compute. repeat split; reflexivity. Qed.
+
+(* a configuration object is not a value for a leaf field or for a list of configurations, nor for an undeclared key *)
+Example set_obj_wrong_slot :
+  snd (ex_obj_do ex_obj_w ex_obj_root [] (ex_set RSet (sa "n"))) = OErr (EValidation (sa "n"))
+  /\ snd (ex_obj_do ex_obj_w ex_obj_root [] (ex_set RSet (sa "items"))) = OErr (EValidation (sa "items"))
+  /\ snd (ex_obj_do ex_obj_w ex_obj_root [] (ex_set RSet (sa "nokey"))) = OErr EAttribute.
+Proof. vm_compute. repeat split; reflexivity. Qed.
+
+(* the side condition of the C01 theorems over configuration objects is satisfiable, and met by the objects above *)
+Example ex_xobjs_ok :
+  xobjs_ok leaf inst_meets ex_fs_obj
+    [([], ex_unset); ([], ex_set RAppend (sa "items")); ([], ex_set RSet (sa "n")); ([PKey (sa "sub")], XOp (CSet (sa "need") (PInt 1)))].
+Proof.
+  unfold xobjs_ok. repeat constructor; cbn; try exact I; try reflexivity.
+Qed.
+
+(* the same refused object offered a second time is refused in the same way (nothing about the first attempt sticks);
+   once the caller has given it the missing value through its own reference it is taken *)
+Definition ex_obj_dos (w : world) (last : kept leaf) (c : cfg) (x : xop leaf) :=
+  at_path_xs leaf lvalidate lto_python ldefault l_callable lflag (vrun []) [] w last [] c false [] ex_fs_obj x.
+Example reoffered_obj_rejected_again :
+  let '(w1, c1, _) := ex_obj_do ex_obj_w ex_obj_root [] (XOp (CSet (sa "items") (PList 0 []))) in
+  let '(w2, k2, c2, o2) := ex_obj_dos w1 None c1 (XObj RAppend (sa "items") false [] ex_need []) in
+  let '(w3, k3, c3, o3) := ex_obj_dos w2 k2 c2 (XAgain RAppend (sa "items") []) in
+  let '(w4, k4, c4, o4) := ex_obj_dos w3 k3 c3 (XAgain (RInsert 0) (sa "items") [([], CSet (sa "need") (PInt 4))]) in
+  let '(w5, k5, c5, o5) := ex_obj_dos w4 k4 c4 (XAgain RAppend (sa "items") []) in
+  o2 = OErr (EValidation (sa "items[0].need")) /\ o3 = o2 /\ c3 = c1 /\ o4 = OOk /\ k4 = None /\ o5 = OUnm /\ c5 = c4
+  /\ exists it, dget (sa "items") (c_data c4) = Some (VList [it]) /\ dget (sa "need") (c_data it) = Some (VLeaf (PInt 4)).
+Proof. vm_compute. repeat split; try reflexivity. eexists. split; reflexivity. Qed.
+
+(* ---- lists of configurations with declared default items ---- *)
+Definition ex_item : list (str * node leaf) :=
+  [(sa "n", NLeaf (mk (LInt (Some 0%Z) (Some 10%Z)) true PNone)); (sa "s", NLeaf (mk (LStr None (Some 5%nat) true false) false (PStr (sa "d"))))].
+Definition ex_dflt_node (maps : list pyval) : node leaf := NCfgList false [] ex_item (Some (false, maps)).
+Definition ex_maps : list pyval :=
+  [PDict 0 [(PStr (sa "n"), PInt 1)]; PDict 0 [(PStr (sa "n"), PStr (sa "2")); (PStr (sa "s"), PStr (sa "ABC"))]].
+Definition ex_fs_dflt : list (str * node leaf) := [(sa "a", NLeaf (mk (LInt None None) false (PInt 1))); (sa "items", ex_dflt_node ex_maps)].
+Definition ex_dflt_root : cfg := snd (build_cfg leaf lvalidate lto_python ldefault l_callable lflag (vrun []) w0 ex_fs_dflt).
+Definition ex_dflt_w : world := fst (build_cfg leaf lvalidate lto_python ldefault l_callable lflag (vrun []) w0 ex_fs_dflt).
+
+(* a fresh configuration holds one validated, normalised item per declared map; the key is marked default; the
+   configuration validates; editing an item in place through its own path makes whole-configuration validation fail,
+   default mark or not; reset rebuilds the items (new identities) *)
+Example default_list_built :
+  dget (sa "items") (c_data ex_dflt_root)
+    = Some (VList [Cfg 1 [(sa "n", VLeaf (PInt 1)); (sa "s", VLeaf (PStr (sa "d")))] [sa "s"] [];
+                   Cfg 2 [(sa "n", VLeaf (PInt 2)); (sa "s", VLeaf (PStr (sa "abc")))] [] []])
+  /\ defined ex_dflt_root (sa "items") = false
+  /\ validate_errs leaf lvalidate lflag (vrun []) (NSub false [] ex_fs_dflt) [] (VCfg ex_dflt_root) = [].
+Proof. vm_compute. repeat split; reflexivity. Qed.
+Example default_list_item_held_to_the_rule :
+  let step c ps o := at_path leaf lvalidate lto_python ldefault l_callable lflag (vrun []) ps ex_dflt_w [] c false [] ex_fs_dflt o in
+  let '(_, c1, o1) := step ex_dflt_root [PItem (sa "items") 0] (CReset (sa "n")) in
+  let '(_, c2, o2) := step c1 [] (CValidate false) in
+  let '(_, c3, o3) := step c2 [] (CReset (sa "items")) in
+  let '(_, _, o4) := step c3 [] (CValidate false) in
+  o1 = OOk /\ defined c1 (sa "items") = false /\ o2 = OErr (EValidation (sa "items[0].n")) /\ o3 = OOk /\ o4 = OOk
+  /\ map fst (ids_cfg [] c3) = [[]; sa "items[0]"; sa "items[1]"] /\ map snd (ids_cfg [] c3) = [0; 3; 4].
+Proof. vm_compute. repeat split; reflexivity. Qed.
+(* a default that does not load (an item outside its bounds; an undeclared key) makes the build fail: the slot holds the
+   failure marker, and the schema does not meet the premise ok_fields of the C01 theorems *)
+Example default_list_invalid :
+  snd (build_val leaf lvalidate lto_python ldefault l_callable lflag (vrun []) w0 (ex_dflt_node [PDict 0 [(PStr (sa "n"), PInt 99)]]))
+    = VLeaf default_failed
+  /\ snd (build_val leaf lvalidate lto_python ldefault l_callable lflag (vrun []) w0 (ex_dflt_node [PDict 0 [(PStr (sa "zz"), PInt 1)]]))
+    = VLeaf default_failed
+  /\ ~ ok_fields leaf lvalidate lto_python ldefault l_callable lflag (vrun []) [(sa "items", ex_dflt_node [PDict 0 [(PStr (sa "n"), PInt 99)]])].
+Proof.
+  split; [vm_compute; reflexivity|]. split; [vm_compute; reflexivity|].
+  intros [_ H]. inversion H; subst. cbn [snd ex_dflt_node ok_node] in H2. destruct H2 as [_ Hd]. apply (Hd w0). vm_compute. reflexivity.
+Qed.
+(* ... and the premise is satisfiable: the schema of the examples above meets it, in every world *)
+Example ex_dflt_ok_fields : ok_fields leaf lvalidate lto_python ldefault l_callable lflag (vrun []) ex_fs_dflt.
+Proof.
+  split; [cbn; repeat constructor; cbn; intuition discriminate|].
+  repeat constructor; cbn [snd ok_node ex_dflt_node ex_item].
+  - cbn. intuition discriminate.
+  - cbn. intuition.
+  - intro w. vm_compute. discriminate.
+Qed.
